@@ -213,6 +213,21 @@ func evaluate(S Scenario, o Obs, evs []event) []violation {
 	} else if o.LateCommit {
 		add("C17:commit-after-stop-returned", "a commit point was stamped after a Stop call had returned")
 	}
+	// (6) Stop returns only after the run has ended with every resource closed: in a started run every Close call and
+	// every Close completion precedes the first return of any Stop call (Run closes awaitExit after cleanupResources;
+	// event order is the order of the scenario's own sequence counter, no clock involved)
+	if S.Mode == "det" && o.Started {
+		firstRet := int64(0)
+		for _, e := range evs {
+			if e.Ev == "stop-ret" && firstRet == 0 {
+				firstRet = e.Seq
+			}
+			if (e.Ev == "close" || e.Ev == "close-done") && firstRet != 0 {
+				add("C17:stop-returned-before-resources-closed:"+e.Ev, "%s of resource %s (seq %d) after a Stop call had returned (seq %d): Stop returned while the started run was still closing its resources", e.Ev, e.Who, e.Seq, firstRet)
+				break
+			}
+		}
+	}
 	// (5) at most one run
 	if S.Second != "none" && o.SecondClass != "" {
 		extra := 0
